@@ -1,0 +1,34 @@
+//go:build verif
+
+// Contracts for the tvc verifier (/verif). Comment-only: with the `verif` tag off this file does not exist,
+// with it on it adds no code. Syntax: /verif/DESIGN.md appendix A.
+
+package aliyun
+
+//@ for C07
+
+//@ # ---- what the cloud assigned is reported to the pool even when a later step fails, so the pool can hand it back ----
+//@ ghost c07assigned bool = false
+//@ ghost c07ips []netip.Addr
+//@ ghost c07created bool = false
+
+//@ func Aliyun.AssignNIPv4
+//@   requires a != nil && a.openAPI != nil
+//@   at call AssignPrivateIPAddress: ghost c07assigned = (result1 == nil)
+//@   at call AssignPrivateIPAddress: ghost c07ips = result0
+//@   # once the cloud call succeeded, exactly the assigned addresses are returned — together with the error, if the wait for the metadata fails
+//@   ensures c07assigned ==> result0 == c07ips
+//@   ensures !c07assigned ==> result1 != nil
+
+//@ func Aliyun.AssignNIPv6
+//@   requires a != nil && a.openAPI != nil
+//@   at call AssignIpv6Addresses: ghost c07assigned = (result1 == nil)
+//@   at call AssignIpv6Addresses: ghost c07ips = result0
+//@   ensures c07assigned ==> result0 == c07ips
+//@   ensures !c07assigned ==> result1 != nil
+
+//@ # an interface the cloud created is returned to the pool even when attach / wait fail, so the pool can delete it
+//@ func Aliyun.CreateNetworkInterface
+//@   requires a != nil && a.openAPI != nil && a.vsw != nil
+//@   at call ExponentialBackoffWithContext: ghost c07created = (result == nil)
+//@   ensures c07created && result3 != nil ==> result0 != nil
